@@ -375,7 +375,11 @@ class ParseAPI(object):
                         if generator.contains_point(v0, v1):
                             point = generator.Point(v0, v1)
         if point:
-            return self._network.keys.public(point)
+            try:
+                return self._network.keys.public(point)
+            except ValueError:
+                # coordinates outside [0, p)
+                return None
         return None
 
     def sec(self, s: str) -> Any:
